@@ -82,9 +82,15 @@ type vOp struct {
 	PendErr bool   `json:"penderr,omitempty"`
 }
 
+// the harness's own notion of a filter (independent of the package's representation)
+type vFilt struct {
+	chainId     vaa.ChainID
+	emitterAddr vaa.Address
+}
+
 type vSubState struct {
 	stream   *vStream
-	filters  []filter // harness's own reading of the request (in-range chains only), nil when the request has to be rejected
+	filters  []vFilt // harness's own reading of the request (in-range chains only), nil when the request has to be rejected
 	nofilt   bool
 	rejected bool
 	live     bool // registered and not cancelled
@@ -152,6 +158,7 @@ func runScenario(ops []vOp) (mon []string, final map[string][]int, quirks map[st
 	var pendingPub chan error
 	blockedSeen := false
 	lateOnce := false
+	anomalies := 0
 	say := func(m string) {
 		for _, ss := range subsK {
 			if ss.live && ss.stalled {
@@ -244,7 +251,7 @@ func runScenario(ops []vOp) (mon []string, final map[string][]int, quirks map[st
 					var a vaa.Address
 					b, _ := hex.DecodeString(q.Addr)
 					copy(a[:], b)
-					ss.filters = append(ss.filters, filter{chainId: vaa.ChainID(q.Chain), emitterAddr: a})
+					ss.filters = append(ss.filters, vFilt{chainId: vaa.ChainID(q.Chain), emitterAddr: a})
 				}
 			}
 			subsK[op.K] = ss
@@ -252,7 +259,11 @@ func runScenario(ops []vOp) (mon []string, final map[string][]int, quirks map[st
 			go func() { ss.stream.ret <- srv.SubscribeSignedVAA(mkRequest(op.Reqs), ss.stream) }()
 			registered := false
 			returned := false
-			waitUntil(vDeadline, func() bool {
+			dl := vDeadline
+			if anomalies > 0 && !blockedSeen {
+				dl = 300 * time.Millisecond // this scenario already showed a registration / delivery anomaly (reported): do not wait 5 s per op again
+			}
+			waitUntil(dl, func() bool {
 				select {
 				case <-ss.stream.ret:
 					returned = true
@@ -279,8 +290,9 @@ func runScenario(ops []vOp) (mon []string, final map[string][]int, quirks map[st
 				}
 			default:
 				op.Res = "blocked"
+				anomalies++
 				if !blockedSeen {
-					say(fmt.Sprintf("REGISTRATION BLOCKED: SubscribeSignedVAA (subscriber %d) did not register within %v", op.K, vDeadline))
+					say(fmt.Sprintf("REGISTRATION BLOCKED: SubscribeSignedVAA (subscriber %d) did not register within %v (it neither returned nor did the number of registered subscriptions grow)", op.K, dl))
 				} else {
 					say(fmt.Sprintf("registration of subscriber %d did not complete within %v while a Publish is blocked", op.K, vDeadline))
 				}
@@ -650,11 +662,18 @@ func TestVerifC20Match(t *testing.T) {
 	if verifThorough() {
 		n = 600
 	}
+	failing := 0
 	for sc := 0; sc < n; sc++ {
 		g := newVGen(r)
 		ops := g.matching()
 		mon, final, quirks := runScenario(ops)
 		o.emit(map[string]interface{}{"k": "match", "sc": sc, "ops": ops, "final": final, "mon": mon, "quirks": quirks})
+		if len(mon) > 0 {
+			failing++
+			if failing >= 3 {
+				break // three failing scenarios are enough to report; the rest would only cost deadlines
+			}
+		}
 	}
 }
 
